@@ -199,6 +199,7 @@ class Ctx:
 
 _ctx = None
 DEBUG_FORKS = False
+CIRCLE_MODE = 'fresh'      # 'uf': cos/sin of a symbolic angle are uninterpreted functions of the angle term
 
 
 def _ids(c, *terms):
@@ -826,7 +827,11 @@ def _circle(a):
                         memo[key] = pair
                         break
             else:
-                cs, sn = c.fresh('cos'), c.fresh('sin')
+                if CIRCLE_MODE == 'uf':
+                    # congruent in the angle: provably equal angle terms share cos and sin
+                    cs, sn = ufn('cos', a).n, ufn('sin', a).n
+                else:
+                    cs, sn = c.fresh('cos'), c.fresh('sin')
                 c.axiom(cs * cs + sn * sn == 1)
                 c.axiom(z3.And(cs >= -1, cs <= 1, sn >= -1, sn <= 1))
                 memo[key] = (SR(cs), SR(sn))
@@ -982,6 +987,11 @@ class SC(_Num):
         return SC.raw(dr, di, self.nr, self.ni)
 
     def _truediv(self, o, swap):
+        if not swap and is_num(o) and not isinstance(o, (bool, np.bool_)):
+            f = _frac(o)
+            if f == 0:
+                raise ZeroDivisionError('complex division by zero')
+            return self._mul(1 / f, False)      # exact: division by a concrete real is a rational factor
         b = SC.lift(o)
         if b is None:
             return NotImplemented
